@@ -1090,6 +1090,18 @@ impl Report {
         if !self.violations.is_empty() {
             std::process::exit(1);
         }
+        // a section in which many cases could not be judged (label `inconclusive*`: wall-clock caps
+        // of the sims) did not really explore what it reports: say so instead of "held"
+        for s in &self.sections {
+            let inconclusive: u64 = s.classes.iter().filter(|(k, _)| k.starts_with("inconclusive")).map(|(_, v)| *v).sum();
+            if s.evaluations >= 20 && inconclusive * 5 > s.evaluations {
+                eprintln!(
+                    "[{}] section {}: {} of {} cases were inconclusive (timeouts): the run is inconclusive",
+                    self.cfg.prop, s.name, inconclusive, s.evaluations
+                );
+                std::process::exit(2);
+            }
+        }
         std::process::exit(0);
     }
 }
